@@ -147,6 +147,31 @@ def check_case(out: Outcome, case, tag):
             out.fail('property', 'free-energy-of-current-density', {**case, 'edit': ['increment', 'scale', 'reassign'][mode]},
                      expected=Fref.reshape(-1).tolist()[:6], observed=F2.reshape(-1).tolist()[:6],
                      note='a Volume queried before its density was edited returns a free energy that is not -kT ln(p) of its current density')
+    # densities of other dtypes (occupancies stored as float32 / float64) and the graph built with its DEFAULT threshold, through
+    # every entry point: never-visited voxels must stay out of the graph, visited ones below the default threshold are nodes
+    for dt in (np.float32, np.float64):
+        with warnings.catch_warnings():
+            warnings.simplefilter('ignore')
+            fe_t = Volume(data=d.astype(dt), lattice=Lattice(np.eye(3) * 5.0)).get_free_energy(temperature=T)
+        Ft = np.array(fe_t.data, dtype=float)
+        if not np.all(np.isfinite(Ft)):
+            out.fail('property', 'finite', {**case, 'dtype': dt.__name__}, observed='NaN or infinity in the free-energy grid')
+            continue
+        want_default = {tuple(ix) for ix in np.argwhere(vis & (Ft >= 0) & (Ft < 1e20)).tolist()}
+        for how, G_ in (('free_energy_graph(volume)', free_energy_graph(fe_t, diagonal=False)),
+                        ('free_energy_graph(array)', free_energy_graph(np.array(fe_t.data), diagonal=False)),
+                        ('volume.free_energy_graph()', fe_t.free_energy_graph(diagonal=False) if hasattr(fe_t, 'free_energy_graph') else None)):
+            if G_ is None:
+                continue
+            got_nodes = set(G_.nodes)
+            if any(not vis[n_] for n_ in got_nodes):
+                out.fail('property', 'unvisited-excluded-from-graph', {**case, 'dtype': dt.__name__, 'built_by': how},
+                         observed=sorted(n_ for n_ in got_nodes if not vis[n_])[:4], note='default energy threshold')
+                break
+            if got_nodes != want_default:
+                out.fail('property', 'graph-nodes', {**case, 'dtype': dt.__name__, 'built_by': how}, expected=sorted(want_default)[:8], observed=sorted(got_nodes)[:8],
+                         note='default energy threshold')
+                break
     if vis.sum() >= 2 and (~vis).any() and len(set(d[vis].tolist())) >= 2:
         out.nontrivial.add(json.dumps(case, sort_keys=True))
     if len(out.samples) < 2 and d.size <= 8 and (~vis).any() and vis.sum() >= 2:
